@@ -43,7 +43,20 @@ def config(tier):
     return {"budget_s": 50, "run_timeout": 120, "selftest": 6}
 
 
-PATHS = ["abort", "commit", "withheld_commit", "suspend_resume_commit", "suspend_abort", "suspend_resume_suspend_resume_commit", "withheld_suspend_fill_commit"]
+PATHS = [
+    "abort",
+    "commit",
+    "withheld_commit",
+    "suspend_resume_commit",
+    "suspend_abort",
+    "suspend_resume_suspend_resume_commit",
+    "withheld_suspend_fill_commit",
+    "multi_round_commit",
+    "multi_round_commit",
+    "multi_round_abort",
+    "abort_fault_reuse",
+    "abort_fault_reuse",
+]
 
 
 def generate(rng, tier):
@@ -61,7 +74,13 @@ def generate(rng, tier):
         "path": rng.choice(PATHS),
         "withhold": [rng.choice(["inventories", "texts", "chk_bytes", "inventory-deltas"]), rng.randrange(1000)],
         "reopen": rng.random() < 0.5,
+        "rounds": rng.choice([2, 3, 3]),
+        "splits": [rng.randrange(1000), rng.randrange(1000)],
+        "nth_delete": rng.randint(1, 14),
+        "reuse_inserts": rng.random() < 0.5,
     }
+    if plan["path"] == "abort_fault_reuse":
+        return plan
     if rng.random() < 0.3:
         plan["faults"] = [{"kind": "err_before", "at": rng.randint(1, 30), "count": "mut", "err": rng.choice(["transport", "enospc", "permission"])}]
     return plan
@@ -177,6 +196,10 @@ def execute(sim, plan):
             sim.fail("content", ["content", kindsig, f"{tag}:check"], prob)
 
     kindsig = "err_before" if plan.get("faults") else "none"
+    if path.startswith("multi_round") or path == "abort_fault_reuse":
+        _special_paths(sim, plan, path, open_pair, stream_for, expect_unchanged, expect_complete, kindsig)
+        sim.state_seen((fmt, path, plan["pre"], kindsig))
+        return
     wh = Withholder(sim, plan["withhold"][0], plan["withhold"][1]) if "withheld" in path else None
     tgt, srcr = open_pair()
     sink = tgt._get_sink()
@@ -341,3 +364,128 @@ def execute(sim, plan):
         tb.pull(storesim.open_branch(url_s + "s"), stop_revision=tip)
         expect_complete("retry-after-fault")
     sim.state_seen((fmt, path, plan["pre"], bool(wh), kindsig))
+
+
+def _special_paths(sim, plan, path, open_pair, stream_for, expect_unchanged, expect_complete, kindsig):
+    """(a) multi_round_*: the stream is inserted in 2-3 rounds, each round adds data and
+    is followed by suspend -> (fresh target object) -> resume with ALL tokens so far; the
+    last round commits (or aborts).  (b) abort_fault_reuse: a resumed write group is
+    aborted the way StreamSink.insert_stream does (suppress_errors=True) while the n-th
+    delete of the abort fails; the same locked object then runs another write group."""
+    tgt, srcr = open_pair()
+    sink = tgt._get_sink()
+    tgt.lock_write()
+    srcr.lock_read()
+    in_group = False
+    try:
+        tgt.start_write_group()
+        in_group = True
+        _source, st = stream_for(tgt, srcr)
+        parts = [(kind, list(sub)) for kind, sub in st]
+        flat = [(kind, rec) for kind, recs in parts for rec in recs]
+        if not flat:
+            tgt.abort_write_group()
+            in_group = False
+            return
+        sim.nontrivial = True
+
+        def insert(items, is_resume):
+            grouped = []
+            for kind, rec in items:
+                if grouped and grouped[-1][0] == kind:
+                    grouped[-1][1].append(rec)
+                else:
+                    grouped.append((kind, [rec]))
+            sink.insert_stream_without_locking(iter([(k, iter(r)) for k, r in grouped]), srcr._format, is_resume)
+
+        def reopen_target():
+            nonlocal tgt, sink
+            tgt.unlock()
+            storesim.clear_caches()
+            tgt = storesim.open_repo(tgt.user_url)
+            sink = tgt._get_sink()
+            tgt.lock_write()
+
+        if path == "abort_fault_reuse":
+            insert(flat, False)
+            tokens = tgt.suspend_write_group()
+            in_group = False
+            reopen_target()
+            tgt.resume_write_group(tokens)
+            in_group = True
+            if plan.get("reuse_inserts"):
+                # something new in the resumed group as well, so that two packs are aborted
+                insert(flat[:1], True)
+            sim.arm([{"kind": "err_before", "op": "delete", "nth": plan["nth_delete"], "err": "permission"}])
+            try:
+                tgt.abort_write_group(suppress_errors=True)
+            finally:
+                sim.disarm()
+            in_group = False
+            if sim.faults_fired:
+                sim.probe("abort_delete_failed")
+            # the same object, still write-locked, goes on with another write group
+            try:
+                tgt.start_write_group()
+                in_group = True
+                tgt.commit_write_group()
+                in_group = False
+                sim.probe("next_group_after_failed_abort_committed")
+            except SimCrash:
+                raise
+            except Exception as e:  # noqa: BLE001 - after a failed abort the object may refuse; what matters is what becomes visible
+                if not sim.faults_fired:
+                    raise
+                sim.probe("next_group_after_failed_abort_raised")
+                sim.event("next-group-raised", type(e).__name__)
+                if tgt.is_in_write_group():
+                    tgt.abort_write_group(suppress_errors=True)
+                in_group = False
+            tgt.unlock()
+            srcr.unlock()
+            now = visible(tgt.user_url)
+            d = diff_visible_keys(plan, now, expect_unchanged)
+            return
+        rounds = plan["rounds"]
+        cuts = sorted({1 + (c % max(1, len(flat) - 1)) for c in plan["splits"][: rounds - 1]}) if len(flat) > 1 else []
+        bounds = [0] + cuts + [len(flat)]
+        tokens = []
+        for r in range(len(bounds) - 1):
+            if r > 0:
+                reopen_target()
+                tgt.resume_write_group(tokens)
+                in_group = True
+                sim.probe("resume_token_used")
+            insert(flat[bounds[r] : bounds[r + 1]], r > 0)
+            if r < len(bounds) - 2:
+                tokens = tgt.suspend_write_group()
+                in_group = False
+                sim.probe("suspended")
+                sim.event("suspended", len(tokens))
+                if len(tokens) > 1:
+                    sim.probe("multiple_resume_tokens")
+                expect_unchanged(f"suspend-round-{r}")
+        if path == "multi_round_abort":
+            tgt.abort_write_group()
+            in_group = False
+            expect_unchanged("multi-round-abort")
+        else:
+            tgt.commit_write_group()
+            in_group = False
+            expect_complete("multi-round-commit")
+    finally:
+        sim.disarm()
+        try:
+            if in_group and tgt.is_in_write_group():
+                tgt.abort_write_group(suppress_errors=True)
+        except Exception:  # noqa: BLE001
+            pass
+        for r in (srcr, tgt):
+            try:
+                r.unlock()
+            except Exception:  # noqa: BLE001
+                pass
+
+
+def diff_visible_keys(plan, now, expect_unchanged):
+    expect_unchanged("abort-under-delete-error-then-next-write-group")
